@@ -69,6 +69,146 @@ fn no_repeat(p: BddPtr, seen: u64) -> bool {
     }
 }
 
+// ---- the same CNFs in a WIDE label space: variable i of the printed CNF sits on label emb[i] of a builder with ~70 labels
+// (two of the labels are congruent modulo 64, some lie beyond 63); the other labels exist in the order / vtree and are never mentioned
+fn clauses_of_emb(v: &Value, emb: &[usize]) -> Vec<Vec<Literal>> {
+    clauses_of(v)
+        .into_iter()
+        .map(|c| c.into_iter().map(|l| Literal::new(VarLabel::new_usize(emb[l.label().value_usize()]), l.polarity())).collect())
+        .collect()
+}
+fn bdd_tt_emb(p: BddPtr, nv: usize, emb: &[usize]) -> Option<u64> {
+    fn ev(p: BddPtr, a: usize, emb: &[usize]) -> Option<bool> {
+        match p {
+            BddPtr::PtrTrue => Some(true),
+            BddPtr::PtrFalse => Some(false),
+            BddPtr::Reg(n) | BddPtr::Compl(n) => {
+                let v = emb.iter().position(|l| *l == n.var.value_usize())?; // a label the formula never mentions: not its diagram
+                let r = if (a >> v) & 1 == 1 { ev(n.high, a, emb)? } else { ev(n.low, a, emb)? };
+                Some(if matches!(p, BddPtr::Compl(_)) { !r } else { r })
+            }
+        }
+    }
+    let mut acc = 0u64;
+    for a in 0..(1usize << nv) {
+        if ev(p, a, emb)? {
+            acc |= 1 << a;
+        }
+    }
+    Some(acc)
+}
+fn no_repeat_wide(p: BddPtr, seen: u128) -> bool {
+    match p {
+        BddPtr::PtrTrue | BddPtr::PtrFalse => true,
+        BddPtr::Reg(n) | BddPtr::Compl(n) => {
+            let bit = 1u128 << n.var.value_usize();
+            seen & bit == 0 && no_repeat_wide(n.low, seen | bit) && no_repeat_wide(n.high, seen | bit)
+        }
+    }
+}
+/// truth table over the embedded variables; the unmentioned labels are set by `fill` (the function must not depend on them)
+fn sdd_tt_emb(p: SddPtr, nv: usize, emb: &[usize], nlabels: usize, fill: bool) -> u64 {
+    (0..(1usize << nv)).fold(0u64, |acc, a| {
+        let mut asg = vec![fill; nlabels];
+        for v in 0..nv {
+            asg[emb[v]] = (a >> v) & 1 == 1;
+        }
+        if p.evaluate(&asg) { acc | (1 << a) } else { acc }
+    })
+}
+fn pick_emb(rng: &mut Rng, nv: usize, nlabels: usize) -> Vec<usize> {
+    let base = rng.below(6);
+    let mut emb: Vec<usize> = vec![base, base + 64];
+    while emb.len() < nv {
+        let l = rng.below(nlabels);
+        if !emb.contains(&l) {
+            emb.push(l);
+        }
+    }
+    emb.truncate(nv);
+    for k in (1..emb.len()).rev() {
+        emb.swap(k, rng.below(k + 1));
+    }
+    emb
+}
+fn wide_order(rng: &mut Rng, emb: &[usize], nlabels: usize) -> Vec<usize> {
+    // the mentioned labels in a random relative order, interleaved with the unmentioned ones
+    let mut o: Vec<usize> = (0..nlabels).collect();
+    for k in (1..o.len()).rev() {
+        o.swap(k, rng.below(k + 1));
+    }
+    let _ = emb;
+    o
+}
+
+fn run_bdd_wide<'a, T: IteTable<'a, BddPtr<'a>> + Default>(b: &'a RobddBuilder<'a, T>, cfg: &str, nv: usize, emb: &[usize], vecs: &[&Value], t: &mut Tally) {
+    use rsdd::repr::PartialModel;
+    for (vi, v) in vecs.iter().enumerate() {
+        let cnf = Cnf::new(&clauses_of_emb(v, emb));
+        t.steps += 1;
+        let p = match guarded(|| b.compile_cnf(&cnf)) {
+            Ok(p) => p,
+            Err(m) => {
+                note(t, cfg, v, json!({"panic": m, "emb": emb}));
+                continue;
+            }
+        };
+        let got = bdd_tt_emb(p, nv, emb);
+        if got != Some(models_of(v)) {
+            note(t, cfg, v, json!({"models_tt": got, "emb": emb}));
+            continue;
+        }
+        if vi % 8 != 0 {
+            continue;
+        }
+        // a few partial assignments (over the mentioned labels and one unmentioned label): with_assignments = compile + condition_model
+        for code in (0..3usize.pow(nv as u32)).step_by(5) {
+            let pm: Vec<u8> = (0..nv).map(|i| ((code / 3usize.pow(i as u32)) % 3) as u8).collect();
+            let mut asg: Vec<Option<bool>> = vec![None; cnf.num_vars().max(emb.iter().max().unwrap() + 1)];
+            for (i, x) in pm.iter().enumerate() {
+                asg[emb[i]] = match x { 0 => Some(false), 1 => Some(true), _ => None };
+            }
+            let m = PartialModel::from_assignments(&asg);
+            t.steps += 1;
+            match guarded(|| (b.compile_cnf_with_assignments(&cnf, &m), b.condition_model(p, &m))) {
+                Ok((x, y)) => {
+                    if x != y || bdd_tt_emb(x, nv, emb) != Some(cond_tt(got.unwrap(), &pm, nv)) {
+                        note(t, cfg, v, json!({"partial_model": pm, "emb": emb, "with_assignments_tt": bdd_tt_emb(x, nv, emb), "then_condition_tt": bdd_tt_emb(y, nv, emb), "same_diagram": x == y}));
+                        break;
+                    }
+                }
+                Err(msg) => {
+                    note(t, cfg, v, json!({"partial_model": pm, "emb": emb, "panic": msg}));
+                    break;
+                }
+            }
+        }
+    }
+}
+
+fn run_td_wide<'a, B: DecisionNNFBuilder<'a>>(b: &'a B, cfg: &str, nv: usize, emb: &[usize], nlabels: usize, vecs: &[&Value], t: &mut Tally) {
+    for v in vecs {
+        let mut cl = clauses_of_emb(v, emb);
+        // the decision order is an order of exactly the CNF's variables 0..num_vars: a tautology pins num_vars to nlabels
+        cl.push(vec![Literal::new(VarLabel::new_usize(nlabels - 1), true), Literal::new(VarLabel::new_usize(nlabels - 1), false)]);
+        let cnf = Cnf::new(&cl);
+        if cnf.num_vars() != nlabels {
+            continue;
+        }
+        t.steps += 1;
+        match guarded(|| b.compile_cnf_topdown(&cnf)) {
+            Ok(p) => {
+                let got = bdd_tt_emb(p, nv, emb);
+                let exp = models_of(v);
+                if got != Some(exp) || (exp == 0) != p.is_false() || !no_repeat_wide(p, 0) {
+                    note(t, cfg, v, json!({"models_tt": got, "emb": emb, "is_false_constant": p.is_false(), "no_repeat": no_repeat_wide(p, 0)}));
+                }
+            }
+            Err(m) => note(t, cfg, v, json!({"panic": m, "emb": emb})),
+        }
+    }
+}
+
 fn perms(n: usize) -> Vec<Vec<usize>> {
     if n == 0 {
         return vec![vec![]];
@@ -182,6 +322,27 @@ pub fn replay_cnfvec(args: &Args) {
     let mut configs = 0;
     match which.as_str() {
         "bdd" => {
+            if nv >= 2 {
+                // wide label space: builders over 72 labels in a random order, the CNF's variables scattered among them
+                let nlabels = 72usize;
+                let some: Vec<&Value> = vecs.iter().step_by(3).collect();
+                for k in 0..2 {
+                    configs += 1;
+                    let emb = pick_emb(&mut rng, nv, nlabels);
+                    let ord = wide_order(&mut rng, &emb, nlabels);
+                    if k == 0 {
+                        rsdd::verif::set_table_capacity(0);
+                        rsdd::verif::set_lru_capacity(None);
+                        let b = RobddBuilder::<AllIteTable<BddPtr>>::new(vl(&ord));
+                        run_bdd_wide(&b, "bdd WIDE 72 labels", nv, &emb, &some, &mut t);
+                    } else {
+                        rsdd::verif::set_table_capacity(2);
+                        rsdd::verif::set_lru_capacity(Some(1));
+                        let b = RobddBuilder::<LruIteTable<BddPtr>>::new(vl(&ord));
+                        run_bdd_wide(&b, "bdd WIDE 72 labels lru/tiny tables", nv, &emb, &some, &mut t);
+                    }
+                }
+            }
             for (i, o) in orders.iter().enumerate() {
                 configs += 1;
                 let name = format!("bdd order {o:?}");
@@ -199,6 +360,42 @@ pub fn replay_cnfvec(args: &Args) {
             }
         }
         "sdd" => {
+            if nv >= 2 {
+                // wide label space: vtrees over 70 labels (right-linear, left-linear, random), the CNF's variables scattered among them
+                let nlabels = 70usize;
+                let some: Vec<&Value> = vecs.iter().step_by(3).collect();
+                for kind in 0..3 {
+                    let emb = pick_emb(&mut rng, nv, nlabels);
+                    let lab: Vec<usize> = rng.perm(nlabels);
+                    let labels: Vec<VarLabel> = lab.iter().map(|v| VarLabel::new_usize(*v)).collect();
+                    let vt = match kind {
+                        0 => VTree::right_linear(&labels),
+                        1 => VTree::left_linear(&labels),
+                        _ => crate::sdd_rec::rand_vtree(&mut rng, &lab),
+                    };
+                    for compress in [true, false] {
+                        configs += 1;
+                        rsdd::verif::set_table_capacity(if kind == 1 { 2 } else { 0 });
+                        let mut bm = CompressionSddBuilder::new(vt.clone());
+                        SddBuilder::set_compression(&mut bm, compress);
+                        let b = &bm;
+                        let name = format!("sdd WIDE vtree kind {kind} over {nlabels} labels compress={compress}");
+                        for v in &some {
+                            let cnf = Cnf::new(&clauses_of_emb(v, &emb));
+                            t.steps += 1;
+                            match guarded(|| b.compile_cnf(&cnf)) {
+                                Ok(p) => {
+                                    let (g0, g1) = (sdd_tt_emb(p, nv, &emb, nlabels, false), sdd_tt_emb(p, nv, &emb, nlabels, true));
+                                    if g0 != models_of(v) || g1 != g0 {
+                                        note(&mut t, &name, v, json!({"models_tt": g0, "models_tt_other_labels_true": g1, "emb": emb}));
+                                    }
+                                }
+                                Err(m) => note(&mut t, &name, v, json!({"panic": m, "emb": emb})),
+                            }
+                        }
+                    }
+                }
+            }
             for (i, o) in orders.iter().enumerate() {
                 let labels: Vec<VarLabel> = o.iter().map(|v| VarLabel::new_usize(*v)).collect();
                 let vt = match i % 3 {
@@ -264,6 +461,25 @@ pub fn replay_cnfvec(args: &Args) {
             }
         }
         "topdown" => {
+            if nv >= 2 {
+                // wide label space: CNFs over 70 variables of which only nv are mentioned, scattered; random decision order
+                let nlabels = 70usize;
+                let some: Vec<&Value> = vecs.iter().step_by(3).collect();
+                for store in ["std", "sem"] {
+                    configs += 1;
+                    let emb = pick_emb(&mut rng, nv, nlabels - 1);
+                    let ord = wide_order(&mut rng, &emb, nlabels);
+                    rsdd::verif::set_table_capacity(0);
+                    let name = format!("top-down WIDE {store} {nlabels} labels");
+                    if store == "std" {
+                        let b = StandardDecisionNNFBuilder::new(vl(&ord));
+                        run_td_wide(&b, &name, nv, &emb, nlabels, &some, &mut t);
+                    } else {
+                        let b = SemanticDecisionNNFBuilder::<{ primes::U64_LARGEST }>::new(vl(&ord));
+                        run_td_wide(&b, &name, nv, &emb, nlabels, &some, &mut t);
+                    }
+                }
+            }
             for (i, o) in orders.iter().enumerate() {
                 for store in ["std", "sem"] {
                     configs += 1;
